@@ -16,14 +16,18 @@ func extraCmd2(name string, args []string) bool {
 		dir := fs.String("dir", ".", "")
 		want := fs.String("want", "", "comma separated package paths")
 		out := fs.String("out", "", "output .ll prefix")
+		abi := fs.Int("abi", 0, "apply llgo's C-ABI transformation with this mode")
 		fs.Parse(args)
 		w := map[string]bool{}
 		for _, p := range strings.Split(*want, ",") {
 			w[p] = true
 		}
-		mods, err := llfe.BuildModules(*dir, []string{"."}, w, true, 0)
-		if err != nil {
+		mods, err := llfe.BuildModules(*dir, []string{"."}, w, true, *abi)
+		if err != nil && len(mods) == 0 {
 			fatal(err)
+		}
+		if err != nil {
+			fmt.Fprintln(os.Stderr, "note: build ended early:", err)
 		}
 		for p, m := range mods {
 			fn := *out + strings.ReplaceAll(p, "/", "_") + ".ll"
